@@ -560,9 +560,13 @@ func vBreakLineOrphansWidows() (int, []string) {
 
 // CSS 2.1 §8.3.1: the bottom margin of every in-flow block that was laid out adjoins what follows it — also
 // when the block is collapsed through (its top and bottom margins then adjoin each other and the next sibling)
+// css-page-3 §5.3 / css-break-3 §3.1: when a forced break or a change of page name separates two in-flow
+// siblings, the next page takes the break value found between them and the page name the following box
+// STARTS on (the first of its two page values).
 //@ func inFlowLayout
-//@   props C10
+//@   props C10 C12
 //@   modifies anything
+//@   assert after nextPage#1: nextPage.Break == pageBreak && nextPage.Page == first(callresult(PageValues, 1))
 //@   unclaimed call-*-pre* "box accessors on laid-out boxes"
 //@   assert after skipStack#1: newChild_ != nil ==> len(*adjoiningMargins) >= 1 && (*adjoiningMargins)[len(*adjoiningMargins)-1] == pr.VV(newChild_.Box().MarginBottom)
 
@@ -590,3 +594,15 @@ func vBreakLineOrphansWidows() (int, []string) {
 //@   modifies anything
 //@   assert after canBreak#1: box.Style.GetWhiteSpace() == "pre" || box.Style.GetWhiteSpace() == "nowrap"
 //@   unclaimed call-MarginWidth@*-pre1 "the margins, borders, paddings and width of a laid-out inline-level box are resolved (not tracked through the box tree)"
+
+// CSS 2.1 §9.5.2: clearance inhibits margin collapsing. A box that gets clearance has its top border edge
+// placed at the collapsed margin plus the clearance below its position, and the margins that preceded it
+// do not adjoin its own: its layout starts with an EMPTY list of adjoining margins (they would otherwise
+// be added to its position a second time).
+//@ func blockLevelLayout
+//@   props C10
+//@   modifies anything
+//@   unclaimed call-*-pre* "box accessors on a box under layout"
+//@   assert after box_.PositionY#1: pr.VV(box_.PositionY) + pr.VV(box_.MarginTop) == pr.VV(prev) + collapsedMargin + pr.VV(bl.Clearance)
+//@   call blockLevelLayoutSwitch#1 assert[clearance-separates-the-margins] !bo.TableT.IsInstance(box) && box.BlockLevel().Clearance != nil ==> len(*arg8) == 0
+//@   call blockLevelLayoutSwitch#1 assert[same-box] arg1 == box && arg4 == containingBlock
